@@ -179,10 +179,27 @@ def run(ctx):
               arc.Member(dict(H.simple_member(b'in\x1bside', b'x', level=2, path=bn + b'/')), b'x', b'x'),
               arc.Member(dict(H.simple_member(b'deep', b'x', level=1, path=bn + b'/sub\x01/')), b'x', b'x')]
         archives.append(('error-path parent-is-a-file %02x' % hb, arc.archive(ms)))
+    # members that fail: a wrong recorded CRC, data shorter than recorded, a method nothing decodes - with hostile bytes in their
+    # names and paths, so that every "this one went wrong" line of every mode carries them
+    damaged = []
+    for fld in ('name', 'path'):
+        for lvl in (0, 1, 2, 3):
+            ms = []
+            for k, x in enumerate((0x1b, 0x07, 0x9b, 0x7f, 0x01, 0xe9, 0xff, 0x0a, 0x0d, 0x08)):
+                g = member(lvl, fld, x, k, rnd)
+                kind = k % 3
+                if kind == 0:
+                    ms.append(arc.Member(dict(g.m, crc=g.m['crc'] ^ 0x5a5a), g.packed, g.plain))
+                elif kind == 1:
+                    ms.append(arc.Member(dict(g.m, data=g.m['data'][:len(g.m['data']) // 2]), g.packed, g.plain))
+                else:
+                    ms.append(arc.Member(dict(g.m, method=b'-lh3-'), g.packed, g.plain))
+            archives.append(('damaged-%s L%d' % (fld, lvl), arc.archive(ms)))
+            damaged.append(archives[-1][0])
     jobs = []
     n = 0
     for desc, A in archives:
-        modes = ['l', 'lv', 'v', 'vv', 't', 'xn', 'pq'] if desc.startswith('os-type') else MODES + ['x', 'e'] if desc.startswith('percent') else MODES if (ctx.tier == 'thorough' or desc.startswith(('error-path', 'long-'))) else rnd.sample(MODES, 8) + ['v', 'vv']
+        modes = ['t', 'tq', 'x', 'xf', 'xq', 'xq1', 'e', 'ef', 'xv', 'pq', 'xn', 'v'] if desc.startswith('damaged-') else ['l', 'lv', 'v', 'vv', 't', 'xn', 'pq'] if desc.startswith('os-type') else MODES + ['x', 'e'] if desc.startswith('percent') else MODES if (ctx.tier == 'thorough' or desc.startswith(('error-path', 'long-'))) else rnd.sample(MODES, 8) + ['v', 'vv']
         if desc.startswith(('name', 'path', 'long-name', 'long-path')):
             modes = list(modes) + ['x', 'e']
         for mode in sorted(set(modes)):
